@@ -261,6 +261,50 @@ pub fn build_dict(words: &[String]) -> Vec<u8> {
     out
 }
 
+/// a user dictionary compiled against the given system dictionary
+pub fn build_user_dict(system: &[u8], words: &[String]) -> Vec<u8> {
+    let sys = DictionaryLoader::read_system_dictionary(system).unwrap().to_loaded().unwrap();
+    let mut b = DictBuilder::new_user(&sys);
+    let mut csv = String::new();
+    for w in words {
+        csv.push_str(&csv_line(w));
+    }
+    b.read_lexicon(csv.as_bytes()).unwrap();
+    b.resolve().unwrap();
+    let mut out = Vec::new();
+    b.compile(&mut out).unwrap();
+    out
+}
+
+/// The dictionary behind the checker: layers[0] is the system lexicon, the others are user lexicons in load order
+/// (LexiconSet::lookup consults them last-loaded first, the system lexicon last).  The property and the model only
+/// know the union of the words; which lexicon a word lives in must not matter.
+#[derive(Clone, Debug, PartialEq)]
+pub struct Lexicon {
+    pub layers: Vec<Vec<String>>,
+}
+impl Lexicon {
+    pub fn single(words: Vec<String>) -> Lexicon {
+        Lexicon { layers: vec![words] }
+    }
+    pub fn flat(&self) -> Vec<String> {
+        let mut v: Vec<String> = self.layers.iter().flatten().cloned().collect();
+        v.sort();
+        v.dedup();
+        v
+    }
+    /// compiled dictionaries, system first
+    pub fn compile(&self) -> Vec<Vec<u8>> {
+        let sys = build_dict(&self.layers[0]);
+        let mut out = vec![];
+        for l in &self.layers[1..] {
+            out.push(build_user_dict(&sys, l));
+        }
+        out.insert(0, sys);
+        out
+    }
+}
+
 #[derive(Debug, Clone, PartialEq)]
 pub struct Outcome {
     pub eos: Option<i64>,                  // get_eos of the whole text; None = Err or panic
@@ -269,8 +313,18 @@ pub struct Outcome {
     pub note: String,
 }
 
-pub fn run_impl(text: &str, limit: usize, dict: Option<&[u8]>) -> Outcome {
-    let loaded = dict.map(|d| DictionaryLoader::read_system_dictionary(d).unwrap().to_loaded().unwrap());
+pub fn run_impl(text: &str, limit: usize, dicts: Option<&[Vec<u8>]>) -> Outcome {
+    // the system dictionary plus user dictionaries appended the way LoadedDictionary::merge_dictionary /
+    // JapaneseDictionary::add_user do it
+    let loaded = dicts.map(|ds| {
+        let mut l = DictionaryLoader::read_system_dictionary(&ds[0]).unwrap().to_loaded().unwrap();
+        for u in &ds[1..] {
+            let npos = l.grammar.pos_list.len();
+            let ud = DictionaryLoader::read_user_dictionary(u).unwrap();
+            l.lexicon_set.append(ud.lexicon, npos).unwrap();
+        }
+        l
+    });
     let mut note = String::new();
     let eos = {
         let checker = loaded.as_ref().map(|l| NonBreakChecker::new(&l.lexicon_set));
@@ -536,6 +590,69 @@ fn gen_lexicon(rng: &mut Rng, chars: &[char]) -> Vec<String> {
     words
 }
 
+/// Distribute a generated word list over a system lexicon and 0..3 user lexicons.  Words that contain a terminator get
+/// companions with the same start (proper prefixes, one-character extensions) and companion and word are put into
+/// DIFFERENT lexicons, in both directions (terminator word in a user lexicon / in the system lexicon); some words are
+/// entered in two lexicons.
+fn gen_layers(rng: &mut Rng, chars: &[char], words: Vec<String>) -> Lexicon {
+    let nuser = match rng.below(6) {
+        0 | 1 => 0,
+        2 | 3 => 1,
+        4 => 2,
+        _ => 3,
+    } as usize;
+    let mut layers: Vec<Vec<String>> = vec![vec![]; nuser + 1];
+    let ok = |w: &str| !w.is_empty() && !w.contains('"') && !w.contains('\\') && !w.contains('\n');
+    for w in words {
+        let wc: Vec<char> = w.chars().collect();
+        let has_term = wc.iter().any(|&c| is_period(c) || is_dot(c));
+        let home = rng.below(nuser as u64 + 1) as usize;
+        if has_term && wc.len() >= 2 && rng.chance(2, 3) {
+            // a companion that starts where w starts
+            let comp: String = if rng.chance(3, 4) {
+                wc[..1 + rng.below(wc.len() as u64 - 1) as usize].iter().collect()
+            } else {
+                // extension by the character that follows an occurrence of w in the text, if any
+                let mut e = w.clone();
+                if let Some(p) = (0..chars.len()).find(|&p| chars[p..].starts_with(&wc)) {
+                    if p + wc.len() < chars.len() {
+                        e.push(chars[p + wc.len()]);
+                    }
+                }
+                e
+            };
+            if ok(&comp) && comp != w {
+                let other = if nuser == 0 { 0 } else { (home + 1 + rng.below(nuser as u64) as usize) % (nuser + 1) };
+                layers[other].push(comp);
+            }
+        }
+        if nuser > 0 && rng.chance(1, 8) {
+            let twin = (home + 1) % (nuser + 1);
+            layers[twin].push(w.clone());
+        }
+        layers[home].push(w);
+    }
+    for l in layers.iter_mut() {
+        l.sort();
+        l.dedup();
+    }
+    if layers[0].is_empty() {
+        // a system dictionary needs an entry; take one from a user lexicon if there is one
+        let donor = layers.iter().position(|l| !l.is_empty());
+        match donor {
+            Some(d) => {
+                let w = layers[d].pop().unwrap();
+                layers[0].push(w);
+            }
+            None => layers[0].push("。".into()),
+        }
+    }
+    let sys = layers.remove(0);
+    let mut out = vec![sys];
+    out.extend(layers.into_iter().filter(|l| !l.is_empty()));
+    Lexicon { layers: out }
+}
+
 fn gen_limit(rng: &mut Rng, nchars: usize) -> usize {
     match rng.below(10) {
         0..=4 => 1 + rng.below(8) as usize,
@@ -549,21 +666,28 @@ fn gen_limit(rng: &mut Rng, nchars: usize) -> usize {
 // ------------------------------------------------------------------------------------------------
 // cases
 // ------------------------------------------------------------------------------------------------
-fn desc(text: &str, limit: usize, lex: &Option<Vec<String>>) -> Value {
-    json!({"kind": "c16", "text": text, "limit": limit, "lexicon": lex})
+fn desc(text: &str, limit: usize, lex: &Option<Vec<String>>, layers: &Option<Lexicon>) -> Value {
+    json!({"kind": "c16", "text": text, "limit": limit, "lexicon": lex,
+           "layers": layers.as_ref().map(|l| l.layers.clone())})
 }
 
-fn one_case(sink: &mut Sink, text: &str, limit: usize, lex: &Option<Vec<String>>, verbose: bool) {
+fn one_case(sink: &mut Sink, text: &str, limit: usize, layers: &Option<Lexicon>, verbose: bool) {
     let chars: Vec<char> = text.chars().collect();
+    let lex_flat: Option<Vec<String>> = layers.as_ref().map(|l| l.flat());
+    let lex = &lex_flat;
     let lexc: Option<Vec<Vec<char>>> = lex.as_ref().map(|l| l.iter().map(|w| w.chars().collect()).collect());
-    let dict = lex.as_ref().map(|l| build_dict(l));
+    let dict = layers.as_ref().map(|l| l.compile());
     let out = run_impl(text, limit, dict.as_deref());
+    if let Some(l) = layers {
+        sink.tag(&format!("user_lexicons={}", l.layers.len() - 1));
+    }
     let want_eos = oracle_get_eos(&chars, limit, lexc.as_deref());
     let want_ranges = oracle_split(&chars, limit, lexc.as_deref());
     if verbose {
         println!("text            : {:?}", text);
         println!("limit           : {}", limit);
-        println!("lexicon         : {:?}", lex);
+        println!("lexicon (union) : {:?}", lex);
+        println!("lexicon layers  : {:?}   (system first, then user dictionaries in load order)", layers.as_ref().map(|l| &l.layers));
         println!("impl get_eos    : {:?}   {}", out.eos, out.note);
         println!("impl sentences  : {:?}", out.ranges.as_ref().map(|r| r.iter().map(|&(b, e)| &text[b..e]).collect::<Vec<_>>()));
         println!("impl ranges     : {:?}", out.ranges);
@@ -594,7 +718,7 @@ fn one_case(sink: &mut Sink, text: &str, limit: usize, lex: &Option<Vec<String>>
         sink.tag("has_brackets");
     }
     let verdict = property_on_output(text, &chars, lexc.as_deref(), limit, &out);
-    let mut d = desc(text, limit, lex);
+    let mut d = desc(text, limit, lex, layers);
     if let Some((_, cls)) = &verdict {
         if !cls.is_empty() {
             d["known_class"] = json!(cls);
@@ -615,7 +739,16 @@ fn one_case(sink: &mut Sink, text: &str, limit: usize, lex: &Option<Vec<String>>
     }
 }
 
-fn corpus() -> Vec<(String, usize, Option<Vec<String>>)> {
+fn corpus() -> Vec<(String, usize, Option<Lexicon>)> {
+    let mut w: Vec<(String, usize, Option<Lexicon>)> = vec![];
+    // words that contain / end with the terminator live in a user lexicon while the system lexicon has a word with the
+    // same start (and the other way round): which lexicon a word comes from must not matter
+    let l = |ls: &[&[&str]]| Some(Lexicon { layers: ls.iter().map(|x| x.iter().map(|s| s.to_string()).collect()).collect() });
+    w.push(("東京娘。に行く。東京".into(), 4096, l(&[&["東", "東京", "に", "行く"], &["東京娘。"]])));
+    w.push(("京都。府に行く。東京".into(), 4096, l(&[&["京都", "東京", "に"], &["京都。府"]])));
+    w.push(("東京娘。に行く。東京".into(), 4096, l(&[&["東京娘。", "に"], &["東", "東京"]])));
+    w.push(("東京娘。に行く。東京".into(), 4096, l(&[&["に"], &["東京娘。"], &["東京"], &["東"]])));
+    w.push(("東京娘。に行く。東京".into(), 4096, l(&[&["に"], &["東京"], &["東京娘。"], &["東"]])));
     let mut v: Vec<(String, usize, Option<Vec<String>>)> = vec![];
     // the reproduced defect of the pinned tree: a one-character entry equal to the terminator must not suppress the break
     v.push(("京都に行った。東京に行った。".into(), 4096, Some(vec!["。".into()])));
@@ -640,7 +773,8 @@ fn corpus() -> Vec<(String, usize, Option<Vec<String>>)> {
         "あいう?という。", "あいう?の？です。", "1.と2.が。", "1.やb.から。", "1.の12.が。", "テスト。テスト", "　振り返って見ると白い物！　女が軒下で招いている。"] {
         v.push((t.into(), 4096, None));
     }
-    v
+    w.extend(v.into_iter().map(|(t, l, lex)| (t, l, lex.map(Lexicon::single))));
+    w
 }
 
 fn long_text(rng: &mut Rng, nchars: usize) -> String {
@@ -661,7 +795,7 @@ fn long_text(rng: &mut Rng, nchars: usize) -> String {
 pub fn run(args: &Args) {
     let mut sink = Sink::new("C16", &args.out, &["Model.Sentence"], args.seed, &args.tier);
     sink.shard_size = 120;
-    sink.rule("texts over an alphabet of terminators, periods/full-width dots, middle dots, commas, <br>/<BR> tags and fragments, all bracket kinds, alphanumerics incl. kanji numerals, quoting particles, whitespace, 1-4 byte characters; directed shapes (itemisation headers, decimals, quotes, nesting) with one-piece perturbations; limits 1..8, 4096, |text|-1..|text|+1; without checker or with a dictionary compiled in memory from one-character terminator entries + substrings of the text around terminators; non-trivial = the text contains a terminator candidate; distinct by generated Coq term");
+    sink.rule("texts over an alphabet of terminators, periods/full-width dots, middle dots, commas, <br>/<BR> tags and fragments, all bracket kinds, alphanumerics incl. kanji numerals, quoting particles, whitespace, 1-4 byte characters; directed shapes (itemisation headers, decimals, quotes, nesting) with one-piece perturbations; limits 1..8, 4096, |text|-1..|text|+1; without checker or with a checker over a system dictionary + 0..3 user dictionaries compiled in memory (one-character terminator entries, substrings of the text around terminators, long words; words containing a terminator and words with the same start are put into different lexicons, both directions, some words entered twice); non-trivial = the text contains a terminator candidate; distinct by generated Coq term");
     if let Some(p) = &args.replay {
         let v: Value = serde_json::from_str(&std::fs::read_to_string(p).unwrap()).unwrap();
         let c = &v["case"];
@@ -680,7 +814,11 @@ pub fn run(args: &Args) {
         }
         let text = c["text"].as_str().unwrap().to_string();
         let limit = c["limit"].as_u64().unwrap() as usize;
-        let lex: Option<Vec<String>> = c["lexicon"].as_array().map(|a| a.iter().map(|w| w.as_str().unwrap().to_string()).collect());
+        let strs = |a: &Vec<Value>| -> Vec<String> { a.iter().map(|w| w.as_str().unwrap().to_string()).collect() };
+        let lex: Option<Lexicon> = match c["layers"].as_array() {
+            Some(ls) => Some(Lexicon { layers: ls.iter().map(|l| strs(l.as_array().unwrap())).collect() }),
+            None => c["lexicon"].as_array().map(|a| Lexicon::single(strs(a))),
+        };
         one_case(&mut sink, &text, limit, &lex, true);
         sink.finish();
         return;
@@ -716,7 +854,7 @@ pub fn run(args: &Args) {
             let extra = rng.below(200) as usize;
             let text = long_text(&mut rng, 4100 + extra);
             let chars: Vec<char> = text.chars().collect();
-            let lex = if rng.chance(1, 2) { Some(gen_lexicon(&mut rng, &chars[..40])) } else { None };
+            let lex = if rng.chance(1, 2) { let ws = gen_lexicon(&mut rng, &chars[..40]); Some(gen_layers(&mut rng, &chars[..40], ws)) } else { None };
             one_case(&mut sink, &text, 4096, &lex, false);
             sink.tag("long_text_default_window");
         }
@@ -727,7 +865,7 @@ pub fn run(args: &Args) {
         };
         let chars: Vec<char> = text.chars().collect();
         let limit = gen_limit(&mut rng, chars.len());
-        let lex = if rng.chance(1, 2) { Some(gen_lexicon(&mut rng, &chars)) } else { None };
+        let lex = if rng.chance(1, 2) { let ws = gen_lexicon(&mut rng, &chars); Some(gen_layers(&mut rng, &chars, ws)) } else { None };
         one_case(&mut sink, &text, limit, &lex, false);
     }
     sink.finish();
@@ -754,9 +892,9 @@ fn explore(args: &Args, n: usize) {
         };
         let chars: Vec<char> = text.chars().collect();
         let limit = gen_limit(&mut rng, chars.len());
-        let lex = if rng.chance(1, 2) { Some(gen_lexicon(&mut rng, &chars)) } else { None };
-        let lexc: Option<Vec<Vec<char>>> = lex.as_ref().map(|l| l.iter().map(|w| w.chars().collect()).collect());
-        let dict = lex.as_ref().map(|l| build_dict(l));
+        let lex = if rng.chance(1, 2) { let ws = gen_lexicon(&mut rng, &chars); Some(gen_layers(&mut rng, &chars, ws)) } else { None };
+        let lexc: Option<Vec<Vec<char>>> = lex.as_ref().map(|l| l.flat().iter().map(|w| w.chars().collect()).collect());
+        let dict = lex.as_ref().map(|l| l.compile());
         let out = run_impl(&text, limit, dict.as_deref());
         let we = oracle_get_eos(&chars, limit, lexc.as_deref());
         let wr = oracle_split(&chars, limit, lexc.as_deref());
